@@ -405,6 +405,31 @@ example : SetInputOK plainSetInput where
       · rw [alGet_alSet_ne _ _ _ _ e] at hk'; exact absurd hk hk'
     · cases h
 
+/-- what one successful step of the flush did: nothing (the period starts after the variable's
+`end`) or one `set_input` -/
+theorem callStep_ok {si : SetInput} {buf : Buffer} {var : Var} {count : Nat} {s s₁ : Store} {q : Period}
+    (h : callStep si buf var count s q = .ok s₁) :
+    ∃ values, alGet buf (var.name, q.text) = some values ∧ values.length ≠ 0 ∧
+      ((endGuard var q = .ok false ∧ s₁ = s) ∨
+       (endGuard var q = .ok true ∧ si s var count q (tile (count / values.length) values) = .ok s₁)) := by
+  unfold callStep at h
+  cases hg : alGet buf (var.name, q.text) with
+  | none => rw [hg] at h; cases h
+  | some values =>
+    rw [hg] at h
+    simp only at h
+    by_cases hz : values.length = 0
+    · rw [if_pos hz] at h; cases h
+    · rw [if_neg hz] at h
+      refine ⟨values, rfl, hz, ?_⟩
+      cases he : endGuard var q with
+      | error e => rw [he] at h; cases h
+      | ok b =>
+        rw [he] at h
+        cases b with
+        | false => cases h; exact Or.inl ⟨rfl, rfl⟩
+        | true => exact Or.inr ⟨rfl, h⟩
+
 theorem flush_unknown (si : SetInput) (hsi : SetInputOK si) (buf : Buffer) (var : Var)
     (hne : var.defUnit ≠ .eternity) (count : Nat) (q : Period) :
     ∀ (ps : List Period) (s s' : Store), (∀ q' ∈ ps, q' ≠ q ∧ flushLe q' q = true) →
@@ -414,23 +439,17 @@ theorem flush_unknown (si : SetInput) (hsi : SetInputOK si) (buf : Buffer) (var 
   | q' :: ps, s, s', hk, h, hx => by
     obtain ⟨s₁, h1, h2⟩ := foldE_cons_ok _ s s' q' ps h
     apply flush_unknown si hsi buf var hne count q ps s₁ s' (fun q'' hq'' => hk q'' (List.mem_cons_of_mem _ hq'')) h2
-    unfold callStep at h1
-    cases hg : alGet buf (var.name, q'.text) with
-    | none => rw [hg] at h1; cases h1
-    | some values =>
-      rw [hg] at h1
-      simp only at h1
-      by_cases hz : values.length = 0
-      · rw [if_pos hz] at h1; cases h1
-      · rw [if_neg hz] at h1
-        cases hq : alGet s₁ (var.name, q) with
-        | none => rfl
-        | some x =>
-          have := (hsi.fresh s s₁ var count q' _ hne h1 (var.name, q) hx (by rw [hq]; simp)).2
-          obtain ⟨hneq, hle⟩ := hk q' List.mem_cons_self
-          rcases this with e | e
-          · exact absurd e.symm hneq
-          · simp only at e; rw [hle] at e; cases e
+    obtain ⟨values, _, _, hcase⟩ := callStep_ok h1
+    rcases hcase with ⟨_, rfl⟩ | ⟨_, h1⟩
+    · exact hx
+    · cases hq : alGet s₁ (var.name, q) with
+      | none => rfl
+      | some x =>
+        have := (hsi.fresh s s₁ var count q' _ hne h1 (var.name, q) hx (by rw [hq]; simp)).2
+        obtain ⟨hneq, hle⟩ := hk q' List.mem_cons_self
+        rcases this with e | e
+        · exact absurd e.symm hneq
+        · simp only at e; rw [hle] at e; cases e
 
 theorem flush_keeps (si : SetInput) (hsi : SetInputOK si) (buf : Buffer) (var : Var)
     (hne : var.defUnit ≠ .eternity) (count : Nat) (k : String × Period) (x : Vec) :
@@ -440,16 +459,10 @@ theorem flush_keeps (si : SetInput) (hsi : SetInputOK si) (buf : Buffer) (var : 
   | q :: ps, s, s', hk, h, hx => by
     obtain ⟨s₁, h1, h2⟩ := foldE_cons_ok _ s s' q ps h
     apply flush_keeps si hsi buf var hne count k x ps s₁ s' (fun q' hq' => hk q' (List.mem_cons_of_mem _ hq')) h2
-    unfold callStep at h1
-    cases hg : alGet buf (var.name, q.text) with
-    | none => rw [hg] at h1; cases h1
-    | some values =>
-      rw [hg] at h1
-      simp only at h1
-      by_cases hz : values.length = 0
-      · rw [if_pos hz] at h1; cases h1
-      · rw [if_neg hz] at h1
-        exact hsi.keeps s s₁ var count q _ hne h1 k x (fun e => hk q List.mem_cons_self e.symm) hx
+    obtain ⟨values, _, _, hcase⟩ := callStep_ok h1
+    rcases hcase with ⟨_, rfl⟩ | ⟨_, h1⟩
+    · exact hx
+    · exact hsi.keeps s s₁ var count q _ hne h1 k x (fun e => hk q List.mem_cons_self e.symm) hx
 
 end OFCore.Bld
 namespace OFCore
@@ -459,7 +472,8 @@ open Bld in
 `ETERNITY` last: a period is never written before a shorter one (repairs C12b — numeric key — and
 C12l — the length, not the size in its own unit).  Consequently, under `SetInputOK`, whatever is
 declared on longer periods, the value declared on ONE definition period is what the simulation
-holds for it: a longer period only fills what is still unknown. -/
+holds for it (when the period does not start after the variable's `end`: `endGuard`): a longer
+period only fills what is still unknown. -/
 theorem C12_longer_fills_gaps (buf : Buffer) (v : String) (ps : List Period)
     (h : sortedPeriods buf v = .ok ps) :
     ps.Pairwise (fun p q => flushLe p q = true) ∧
@@ -467,7 +481,7 @@ theorem C12_longer_fills_gaps (buf : Buffer) (v : String) (ps : List Period)
     (∀ (si : SetInput), SetInputOK si → ∀ (var : Var) (count : Nat) (s s' : Store),
       var.name = v → var.defUnit ≠ .eternity → ps.Nodup →
       foldE (callStep si buf var count) s ps = .ok s' →
-      ∀ q ∈ ps, alGet s (v, q) = none →
+      ∀ q ∈ ps, alGet s (v, q) = none → endGuard var q = .ok true →
       q.unit = var.defUnit → q.size = 1 →
       ∀ values, alGet buf (v, q.text) = some values → values.length ≠ 0 →
       (tile (count / values.length) values).length = count →
@@ -498,7 +512,7 @@ theorem C12_longer_fills_gaps (buf : Buffer) (v : String) (ps : List Period)
       | error e => rw [hp] at hab; cases hab
       | ok p => rw [hp] at hab; cases hab; rfl
   · rw [← hsnd]; exact hperm.map _
-  · intro si hsi var count s s' hname hne hnd hfold q hqm hunk hunit hsize values hvals hz hlen
+  · intro si hsi var count s s' hname hne hnd hfold q hqm hunk hguard hunit hsize values hvals hz hlen
     subst hname
     obtain ⟨pre, post, hsplit⟩ := List.append_of_mem hqm
     rw [hsplit] at hfold hnd
@@ -528,7 +542,7 @@ theorem C12_longer_fills_gaps (buf : Buffer) (v : String) (ps : List Period)
     have hm₁ : alGet m₁ (var.name, q) = some (tile (count / values.length) values) := by
       unfold callStep at hq1
       rw [hvals] at hq1
-      simp only [if_neg hz] at hq1
+      simp only [if_neg hz, hguard] at hq1
       rw [hsi.exact m var count q _ hne hunit hsize hlen hmunk] at hq1
       cases hq1
       exact alGet_alSet_same _ _ _
@@ -944,7 +958,7 @@ theorem C12_refuses_period_mismatch (var : Var) (hr : var.rule = .absent) (hne :
     (count : Nat) (p : Period) (hp : p.unit ≠ var.defUnit ∨ 1 < p.size) :
     (∀ (store : Store) (arr : Vec), arr.length = count →
       stdSetInput store var count p arr = .error .situation) ∧
-    (∀ (buf : Buffer) (ps : List Period) (store : Store), p ∈ ps →
+    (endGuard var p = .ok true → ∀ (buf : Buffer) (ps : List Period) (store : Store), p ∈ ps →
       ∀ s', foldE (callStep stdSetInput buf var count) store ps ≠ .ok s') := by
   have hmis : ∀ (store : Store) (arr : Vec), arr.length = count →
       stdSetInput store var count p arr = .error .situation := by
@@ -963,25 +977,53 @@ theorem C12_refuses_period_mismatch (var : Var) (hr : var.rule = .absent) (hne :
         · exact Or.inr h
       rw [if_pos this]
   refine ⟨hmis, ?_⟩
-  intro buf ps store hmem s'
+  intro hguard buf ps store hmem s'
   refine foldE_not_ok_of_mem _ p ?_ ps hmem store s'
   intro s s'' hc
-  unfold callStep at hc
-  split at hc
-  · cases hc
-  · split at hc
-    · cases hc
-    · rename_i values _ hz
-      by_cases hl : (tile (count / values.length) values).length = count
-      · rw [hmis s _ hl] at hc; cases hc
-      · -- the length test of `_to_array` comes first: an ordinary exception, still no simulation
-        unfold stdSetInput at hc
-        by_cases he : p.unit = .eternity ∧ var.defUnit ≠ .eternity
-        · rw [if_pos he] at hc; cases hc
-        · rw [if_neg he, hr] at hc
-          simp only at hc
-          unfold holderSet at hc
-          rw [if_pos hl] at hc; cases hc
+  obtain ⟨values, _, _, hcase⟩ := callStep_ok hc
+  rcases hcase with ⟨hg, _⟩ | ⟨_, hc⟩
+  · rw [hguard] at hg; cases hg
+  · by_cases hl : (tile (count / values.length) values).length = count
+    · rw [hmis s _ hl] at hc; cases hc
+    · -- the length test of `_to_array` comes first: an ordinary exception, still no simulation
+      unfold stdSetInput at hc
+      by_cases he : p.unit = .eternity ∧ var.defUnit ≠ .eternity
+      · rw [if_pos he] at hc; cases hc
+      · rw [if_neg he, hr] at hc
+        simp only at hc
+        unfold holderSet at hc
+        rw [if_pos hl] at hc; cases hc
+
+open Bld in
+/-- **C12_end_inclusive.**  A variable's `end` date is inclusive for the inputs of a situation: a
+buffered value whose period starts on or before the end date — in particular EXACTLY on it — is
+handed to `set_input` like any other (`callStep`; the variables-only form reads the same
+`endGuard` in `setInputDoc`); one whose period starts after it is ignored and leaves the store as
+it is. -/
+theorem C12_end_inclusive (si : SetInput) (var : Var) (e : Date) (hstop : var.stop = some e)
+    (q : Period) (hq : q.unit ≠ .eternity) :
+    (q.start.le e → endGuard var q = .ok true) ∧ (q.start = e → endGuard var q = .ok true) ∧
+    (¬ q.start.le e → endGuard var q = .ok false) ∧
+    (∀ (buf : Buffer) (count : Nat) (store : Store) (values : Vec),
+      alGet buf (var.name, q.text) = some values → values.length ≠ 0 →
+      callStep si buf var count store q =
+        if q.start.le e then si store var count q (tile (count / values.length) values) else .ok store) := by
+  have hg : endGuard var q = .ok (decide (q.start.le e)) := by
+    unfold endGuard; rw [hstop]; simp only [if_neg hq]
+  refine ⟨?_, ?_, ?_, ?_⟩
+  · intro h; rw [hg, decide_eq_true h]
+  · intro h
+    have : q.start.le e := Or.inl h
+    rw [hg, decide_eq_true this]
+  · intro h; rw [hg, decide_eq_false h]
+  · intro buf count store values hv hz
+    unfold callStep
+    rw [hv]
+    simp only [if_neg hz, hg]
+    by_cases h : q.start.le e
+    · rw [decide_eq_true h, if_pos h]
+    · rw [decide_eq_false h, if_neg h]
+
 end OFCore
 namespace OFCore.Bld
 
@@ -1026,11 +1068,11 @@ namespace OFCore.Bld
 
 def exHousehold : GroupKind := ⟨"household", "households",
   [⟨"parent", some "parents", some 2, ["first_parent", "second_parent"]⟩, ⟨"child", some "children", none, []⟩]⟩
-def exSalary : Var := ⟨"salary", "person", .float, .month, .num 0, .absent⟩
-def exStatus : Var := ⟨"status", "person", .enum ["single", "couple"], .month, .enum 0, .absent⟩
+def exSalary : Var := ⟨"salary", "person", .float, .month, .num 0, .absent, none⟩
+def exStatus : Var := ⟨"status", "person", .enum ["single", "couple"], .month, .enum 0, .absent, none⟩
 def exSys : Sys := ⟨"person", "persons", [exHousehold],
-  [exSalary, ⟨"rent", "household", .float, .month, .num 0, .absent⟩, exStatus,
-   ⟨"birth", "person", .date, .eternity, .date 719163, .absent⟩]⟩
+  [exSalary, ⟨"rent", "household", .float, .month, .num 0, .absent, none⟩, exStatus,
+   ⟨"birth", "person", .date, .eternity, .date 719163, .absent, none⟩]⟩
 def exPersons : List (DKey × Doc) :=
   [(.s "a", .obj [(.s "salary", .obj [(.s "month:2018-01", .int 100)])]),
    (.s "b", .obj [(.s "salary", .obj [(.s "2018-01", .num (5/2))])]), (.s "c", .obj [])]
@@ -1083,6 +1125,12 @@ example : (parseAxes (.arr [.arr [.obj [(.s "name", .str "salary"), (.s "count",
     .arr [.obj [(.s "name", .str "rent"), (.s "count", .int 2), (.s "min", .int 0), (.s "max", .int 1)],
           .obj [(.s "name", .str "salary"), (.s "count", .int 2), (.s "min", .int 5), (.s "max", .int 6)]]])
     ).toOption.map (fun dims => dims.map List.length) = some [1, 2] := by decide +kernel
+-- C12_end_inclusive: a month variable ending on 2018-02-01 takes the input of 2018-02, ignores 2018-03
+example : let v : Var := ⟨"bonus", "person", .float, .month, .num 0, .absent, some ⟨2018, 2, 1⟩⟩
+    (callStep plainSetInput [(("bonus", "2018-02".toList), [.num 7])] v 1 [] ⟨.month, ⟨2018, 2, 1⟩, 1⟩).toOption
+      = some [(("bonus", ⟨.month, ⟨2018, 2, 1⟩, 1⟩), [.num 7])] ∧
+    (callStep plainSetInput [(("bonus", "2018-03".toList), [.num 7])] v 1 [] ⟨.month, ⟨2018, 3, 1⟩, 1⟩).toOption
+      = some [] := by decide +kernel
 -- C12_spelling_invariant: the two spellings of the same document are related, and both are built
 example : All₂ TopEq [(.s "persons", .obj exPersons)] [(.s "persons", .obj exPersons')] := by
   refine .cons ⟨rfl, Or.inr ⟨_, _, rfl, rfl, ?_⟩⟩ .nil
@@ -1105,15 +1153,15 @@ example : buildEntities exSys none [(.s "persons", .obj exPersons), (.s "compani
 example : exSys.RolesOK := by intro g hg; simp [exSys] at hg; subst hg; decide
 example : exSys.var? "zzz" = none := by decide +kernel
 example : checkSetValue exStatus (.str "widowed") = .error .situation := by decide +kernel
-example : checkSetValue ⟨"birth", "person", .date, .eternity, .date 719163, .absent⟩ (.str "2018-02-30") = .error .situation := by
+example : checkSetValue ⟨"birth", "person", .date, .eternity, .date 719163, .absent, none⟩ (.str "2018-02-30") = .error .situation := by
   decide +kernel
 example : checkSetValue exSalary (.str "abc") = .error .situation ∧ checkSetValue exSalary (.str "1 +") = .error .situation ∧
     checkSetValue exSalary (.str "2018-01-01") = .error .situation ∧ checkSetValue exSalary (.str "2*3+1.5") = .ok (.num (15/2)) := by
   decide +kernel
-example : checkSetValue ⟨"age", "person", .int, .month, .int 0, .absent⟩ (.int 9223372036854775808) = .error .situation ∧
-    checkSetValue ⟨"age", "person", .int, .month, .int 0, .absent⟩ (.int 2147483648) = .error .situation ∧
-    checkSetValue ⟨"age", "person", .int, .month, .int 0, .absent⟩ (.int (-2147483648)) = .ok (.int (-2147483648)) ∧
-    checkSetValue ⟨"age", "person", .int, .month, .int 0, .absent⟩ (.num (2147483647 + 1/2)) = .error .situation ∧
+example : checkSetValue ⟨"age", "person", .int, .month, .int 0, .absent, none⟩ (.int 9223372036854775808) = .error .situation ∧
+    checkSetValue ⟨"age", "person", .int, .month, .int 0, .absent, none⟩ (.int 2147483648) = .error .situation ∧
+    checkSetValue ⟨"age", "person", .int, .month, .int 0, .absent, none⟩ (.int (-2147483648)) = .ok (.int (-2147483648)) ∧
+    checkSetValue ⟨"age", "person", .int, .month, .int 0, .absent, none⟩ (.num (2147483647 + 1/2)) = .error .situation ∧
     checkSetValue exStatus (.int 32768) = .error .situation ∧ checkSetValue exStatus (.int 1) = .ok (.enum 1) ∧
     checkSetValue exSalary (.date 722848) = .error .situation := by decide +kernel
 example : (parseKey (.s "2018-13")).toOption = none ∧ (parseKey (.s "month:2018")).toOption = none ∧
